@@ -154,8 +154,9 @@ CLAIMS = {
             "pool_allocator forwards. One-slot-per-object exclusivity rests on the queue (C07).", PATHS, "DESIGN.md §4 C24"),
     "C25": ("proof", "For ALL inputs (one fully symbolic integer, bit-provenance abstract interpretation): every bit-reversal routine equals the "
             "reference reversal; number_splitter::cut for every (offset,count); affine proof that safe_cut clamps to rest_count(); cursor reads "
-            "are bounds-justified; no implicitly widened narrow shift. Not decided: asm MSB/LSB, popcounts, log2*, looped cut bodies.",
-            "static analysis: abstract interpretation in a bit-provenance domain + affine normal forms + type-level lint", "DESIGN.md §4 C25"),
+            "are bounds-justified; no implicitly widened narrow shift; SBC/ZBC (32/64 bit SWAR population counts) equal the number of set / clear "
+            "bits (lane domain: exact affine forms over the input bits per field). Not decided: asm MSB/LSB, log2*, looped cut bodies.",
+            "static analysis: abstract interpretation in a bit-provenance domain and a SWAR lane domain + affine normal forms + type-level lint", "DESIGN.md §4 C25"),
     "C27": ("proof", "For ALL 64-bit hashes: regular keys odd / dummies even / both the reversed hash, for each reversal algorithm; bucket_no = "
             "hash mod 2^k and parent_bucket clears exactly the top set bit for every k = 0..63 in all three split-list implementations "
             "(other bits symbolic). Not decided: the contiguity lemma over the list order.",
